@@ -140,6 +140,17 @@ Fixpoint ievs_eqb (a b : list iev) : bool :=
 
 Definition iev_win (e : iev) : Z := match e with IKey w => w | IMouse w _ _ _ _ => w end.
 
+(* A handler of window [w] closes a window whose subtree [closed] does not contain [w]: from w's
+   own delivery on, nothing in this event goes to a window of that subtree (they are out of the
+   tree, and none of them has a dispatch under way) *)
+Fixpoint c14_closed_silent_checkb (w : Z) (closed : list Z) (log : list iev) : bool :=
+  match log with
+  | [] => true
+  | e :: r => if iev_win e =? w then forallb (fun e' => negb (id_in (iev_win e') closed)) r
+              else c14_closed_silent_checkb w closed r
+  end.
+
+
 (* with a mutation inside a handler: the deliveries to the windows that were NOT closed must
    be the ones of the unmutated order, in that order *)
 Definition c14_rest_checkb (closed : list Z) (expected observed : list iev) : bool :=
